@@ -202,9 +202,13 @@ pub fn expr_ty(u: &Uni, e: &Expr) -> Result<Ty, TypeErr> {
         Expr::Quant(_, a) => {
             let t = match &**a {
                 QArg::Lhs(l) => {
-                    let t = lhs_ty(u, l)?;
-                    // a value expression with [*] denotes an array of what the path reaches
-                    if l.each_count() > 0 { Ty::arr(t) } else { t }
+                    // A bare `x[*]` has no reading here: as a value it is an array of what the
+                    // path reaches (never a plain boolean array unless written `(x[*])`), and
+                    // there is no map-each application for quantifiers.
+                    if l.each_count() > 0 {
+                        return terr("bare [*] path as quantifier argument");
+                    }
+                    lhs_ty(u, l)?
                 }
                 QArg::Logical(e) => {
                     if !arg_form_ok(e) {
